@@ -95,3 +95,47 @@ TEXT.update({
         "technique": "runtime monitoring: recorded scheduler event log + offline ordering/exactly-once checker, metamorphic request/axis runs",
     },
 })
+
+TEXT.update({
+    "C07": {
+        "level": "The real Calculator._calculate_compliances and every averaged property of the real CijVolumeBaseInterface are run on "
+                 "generated positive-definite stiffness fields (all nine systems, (T,V) grids, complete/sub/super-sets of components "
+                 "in random order, isothermal != adiabatic, arbitrary masses and volumes) and compared with contractions of the full "
+                 "3x3x3x3 tensor and its rank-4 inverse, bounds ordering, compliance x stiffness = 1, attribute-style lookups, and "
+                 "velocities recomputed in SI from own CODATA constants. The same judge runs on every real end-to-end Calculator in "
+                 "C05/C12.",
+        "note": "Only grid points whose 6x6 stiffness has eigenvalue ratio < 1e3 are judged (the statement's domain). Stiffness magnitudes 40-500 GPa.",
+        "technique": "runtime monitoring: real averaging code on generated tensor fields vs full-tensor oracle",
+    },
+    "C11": {
+        "level": "The real interpolate_modes is called for all seven methods x every admissible order x 4-12 sampled volumes x three "
+                 "expansion ratios on duck-typed inputs whose modes carry unique (w0, gamma0) labels. Triple consistency is decided "
+                 "on 5-point windows placed strictly inside each polynomial piece (Boole's rule, exact to degree 5): "
+                 "ln w(b)-ln w(a) = -int gamma and gamma(b)-gamma(a) = int V dgamma/dV, including both extrapolation regions; "
+                 "exactness against the closed form for power-law data (all methods) and polynomials up to the order (lsq_poly); "
+                 "tolerances self-calibrated from a 1e-13 input perturbation; Gamma acoustic slots must stay zero; ModePlotter is "
+                 "driven with a recording axes object for n=0,1,2.",
+        "note": "Breakpoints of the smoothing spline are obtained by constructing the same scipy spline (knots only, not values).",
+        "technique": "runtime monitoring: real interpolation on labelled synthetic spectra, integral-consistency oracle, recording-axes spy",
+    },
+    "C12": {
+        "level": "Real Calculator constructions on generated data sets over a covering array (quick) / large sample (thorough) of "
+                 "interpolator x admissible order x crystal system x temperature grid (T_MIN 0-300 K, DT 0.5-500 K) x component set "
+                 "(needed subset, all symmetry-allowed, no symmetry with all 21 keys). Every modulus is checked for dtype, shape and "
+                 "finiteness at every grid point (adiabatic where C_V>0 or T=0), continuity towards T=0, averages/velocities where "
+                 "the stiffness is positive definite; all non-shear objects are additionally judged by the C01 monitor's second "
+                 "reference and the scheduler monitor stays attached.",
+        "note": "Requested pressures are placed inside the computed range by a QHA-only probe (harness level). Data sets are smooth closed-form spectra with BM3 static energies.",
+        "technique": "runtime monitoring: configuration sweep of the real end-to-end pipeline with finiteness/dtype monitors on every result array",
+    },
+    "C17": {
+        "level": "write_energy -> read_energy on generated data (1-12 volumes, 1-10 q-points, 3-60 modes, either sign, magnitudes to 1e5) "
+                 "with the written file also parsed by the oracle's own reader (so writer and reader are judged separately), plus "
+                 "oracle-written phonon files in three number formats through the real reader; read_elast_data on oracle-written "
+                 "tables in nine column spellings, any subset/order, three number formats, with/without lattice block; and the real "
+                 "`cij fill` (CliRunner and subprocess) on all nine systems whose stdout must parse (real and oracle reader) to the "
+                 "symmetry-filled table with header lines, volumes and trailing block preserved.",
+        "note": "Comment lines that themselves look like a five-integer counts line are outside the stated domain.",
+        "technique": "runtime monitoring: write/read differential against independent parsers and writers",
+    },
+})
